@@ -16,10 +16,11 @@ from .rng import run_seed
 from .runner import VERIF, load_prop
 
 
-def digests(modname: str, batch_seed: int, lo: int, hi: int) -> List[str]:
+def digests(modname: str, batch_seed: int, lo: int, hi: int, reverse: bool = False) -> List[str]:
     mod = load_prop(modname)
     out = []
-    for i in range(lo, hi):
+    order = range(hi - 1, lo - 1, -1) if reverse else range(lo, hi)
+    for i in order:
         rs = run_seed(batch_seed, mod.ID, i)
         script = mod.gen(rs, "quick", i)
         run = mod.simulate(script)
@@ -29,7 +30,7 @@ def digests(modname: str, batch_seed: int, lo: int, hi: int) -> List[str]:
         h.update(run.digest().encode())
         h.update(json.dumps([v.cls for v in viols]).encode())
         out.append(h.hexdigest()[:16])
-    return out
+    return out[::-1] if reverse else out
 
 
 def all_props() -> List[str]:
@@ -50,7 +51,7 @@ def main(argv: List[str]) -> int:
     bad = 0
     for modname in props:
         a = digests(modname, seed, 0, n)
-        b = digests(modname, seed, 0, n)
+        b = digests(modname, seed, 0, n, reverse=True)   # different run history in the same process
         outs = []
         procs = []
         for hs in ("0", "12345"):
@@ -71,5 +72,5 @@ def main(argv: List[str]) -> int:
             diffs = [i for i in range(n) if not (a[i] == b[i] and all(o is not None and o[i] == a[i] for o in outs))]
             print(f"[selftest] {modname}: NON-DETERMINISTIC at indices {diffs[:10]} (of {len(diffs)})")
         else:
-            print(f"[selftest] {modname}: {n} seeds identical: twice in-process, fresh interpreters PYTHONHASHSEED=0/12345")
+            print(f"[selftest] {modname}: {n} seeds identical: twice in-process (second pass in reverse order), fresh interpreters PYTHONHASHSEED=0/12345")
     return 1 if bad else 0
